@@ -15,19 +15,22 @@ PROP = dict(
                "Problem Information = 0; witness in coq/Findings/FixedC03.v).  The verdict on the code is the Coq monitor "
                "c03_publish applied to what every connection actually received.",
     level_note="Trusted: Coq kernel, extraction, OCaml driver, Go broker harness (in-memory net.Conn, quiescence probe), "
-               "mochi's decoder for the broker's output.  Reported drops: only the full-outbound-queue report "
-               "(OnPublishDropped) is modelled as an oracle; in-flight limit, packet-id exhaustion and oversize packets are "
-               "not provoked here (C10/C11/C34).  QoS 0 to an offline session is dropped, QoS > 0 is kept and compared "
+               "mochi's decoder for the broker's output.  Reported drops (OnPublishDropped) enter as an oracle: a full outbound queue and, in the stream c03w, packets larger than "
+               "the subscriber's Maximum Packet Size; in-flight limit and packet-id exhaustion are not provoked here (C10/C11).  QoS 0 to an offline session is dropped, QoS > 0 is kept and compared "
                "when the session reconnects (not compared for sessions holding shared subscriptions: the pick made while "
                "offline is unobservable).  Session takeover is excluded (C14).  Schedules: every step runs to quiescence.",
-    engines=[dict(hx="route", args=["c03"], model="route_c03")],
+    engines=[dict(hx="route", args=["c03"], model="route_c03"), dict(hx="route", args=["c03w"], model="route_c03w")],
     theorems=["C03_modulo_findings", "C03_state_modulo_findings", "C03_decision", "C03_fields", "C03_reachable", "C03_refuted"],
     model_files="coq/Session/Deliver.v",
     rule="1200 (thorough 20000) histories of 25 (40) operations over 2-4 clients (MQTT 3.1.1 and 5 mixed, clean and persistent "
          "sessions, Request Problem Information 0), topics {a/b, a/c, a, b}, filters {a/b, a/+, a/#, #, +/b, a/c, +, b}, five "
          "$share filters in three groups, invalid and refused filters, No Local, RAP, RH 0-2, identifiers, read-deny list, "
          "QoS 0-2, retained / empty payloads, MQTT 5 properties, inline publish/subscribe/unsubscribe, server maximum QoS "
-         "0/1/2, retain available on/off.  non-trivial = publish step with at least one delivery; distinct = distinct case lines",
+         "0/1/2, retain available on/off.  Second stream (c03w, 150 / 5000 histories): the write path - MQTT 5 subscribers with a "
+         "Maximum Packet Size of 60-80 (100-120) bytes beside an unlimited MQTT 3.1.1 subscriber, write buffers of 64/16/200 bytes, "
+         "bursts of 2-5 PUBLISH packets (QoS 0-2) fed to the broker in ONE read in which small messages are followed by an oversized "
+         "one (last position in half of the bursts; reported dropped through OnPublishDropped) and then silence; judged at "
+         "quiescence: every entitled copy that was not reported dropped is on the wire exactly once (payloads unique).  non-trivial = publish step with at least one delivery; distinct = distinct case lines",
     exhaustive=False,
     modelled="server.go processPublish (routing part)/publishToSubscribers/publishToClient (prefix), attachClient/"
              "inheritClientSession (session kept or dropped), processSubscribe/processUnsubscribe (bookkeeping), "
